@@ -248,15 +248,17 @@ def schedule_findings(seed, families=None, full=False, max_findings=4):
     ncfg = 0
     nsteps_total = 0
     fams = list(families or F.FAMILIES)
-    if not full:
-        rng.shuffle(fams)
-        fams = fams[:10]
+    # every family in both tiers; the quick tier draws one (k, D) per family and, per start step, the plain
+    # run plus two of the four interruptions
     for fam in fams:
         cls, kind, lo, hi = F.FAMILIES[fam]
         for k in ((2, 3) if full else (rng.choice([2, 3]),)):
             for D in ((2, 4) if full else (rng.choice([2, 3, 4]),)):
-                for st in ((1, 2) if fam in F.ADAPTIVE and fam not in F.SS else (1,)):
-                    for interrupt in (None, 'clear', 'resume', 'rollback', 'reset'):
+                for st in ((1, 2, 3) if fam in F.ADAPTIVE and fam not in F.SS else (1,)):
+                    ints = (None, 'clear', 'resume', 'rollback', 'reset')
+                    if not full:
+                        ints = (None,) + tuple(rng.sample(ints[1:], 2))
+                    for interrupt in ints:
                         ncfg += 1
                         res = _schedule_one(fam, k, D, st, interrupt, rng, F, Chain, Normal, BaseAdaptiveSupport)
                         nsteps_total += res[1]
@@ -284,7 +286,15 @@ def _schedule_one(fam, k, D, st, interrupt, rng, F, Chain, Normal, BaseAdaptiveS
 
     ch, slow = build(7)
     adaptive = isinstance(slow, BaseAdaptiveSupport)
-    Dcfg = slow.jump_interval_duration
+    # the configured duration: the adaptation duration of an adaptive class, the explicit
+    # jump_interval_duration otherwise -- in this harness both are D (not read back from the object)
+    Dcfg = D
+    if slow.jump_interval_duration != D:
+        return ([('duration-not-as-configured:' + fam,
+                  '%s configured with a duration of %d proposal steps (start step %d) has jump_interval_duration=%r'
+                  % (fam, D, st, slow.jump_interval_duration),
+                  {'family': fam, 'k': k, 'configured': D, 'start_step': st,
+                   'observed': slow.jump_interval_duration})], 0)
     if slow.jump_interval != k:
         return ([('jump-interval-ignored:' + fam,
                   '%s constructed with jump_interval=%d has jump_interval=%d' % (fam, k, slow.jump_interval),
